@@ -150,6 +150,7 @@ type system struct {
 	in    *rig.In
 	other *rig.In
 	out   *rig.Out
+	down  *rig.Out // import cases: a best-only route-reflector client that is fed from the Loc-RIB
 }
 
 func build(c c12case, chain rig.Policy) *system {
@@ -159,6 +160,7 @@ func build(c c12case, chain rig.Policy) *system {
 		s.in = s.rg.AddIn(c.Sess, chain)
 		other := s.rg.AddIn(rig.Sess{Kind: otherPeer.Kind, Peer: otherPeer.IP, PeerASN: otherPeer.ASN}, rig.AcceptAll())
 		s.other = other
+		s.down = s.rg.AddOut(rig.Sess{Kind: rig.IBGPRR, Peer: 0x0A000909, PeerASN: rig.DefaultLocal.ASN}, rig.AcceptAll())
 		s.load(c, false)
 	case "export":
 		s.load(c, false)
@@ -233,7 +235,7 @@ func runCase(c c12case) (o outcome) {
 		return runEqual(c)
 	}
 	final := c.Chains[len(c.Chains)-1]
-	var a, b, a0 *rig.TableSnap
+	var a, b, a0, ad, bd *rig.TableSnap
 	key := fmt.Sprintf("%s/%s/%v", c.Kind, c.Sess.Kind, c.Sess.AddPath > 0)
 	static := o.hadStatic
 	g, hung, stk := rig.WaitGuarded(hg, key, func() {
@@ -251,6 +253,9 @@ func runCase(c c12case) (o outcome) {
 		sb := build(c, final)
 		sb.load(c, true)
 		b = sb.snap(c.Kind)
+		if c.Kind == "import" {
+			ad, bd = rig.Snap(sa.down.Table.Dump(), false), rig.Snap(sb.down.Table.Dump(), false)
+		}
 	})
 	if hung {
 		o.viol = append(o.viol, vf.Violation{Clause: "hang", Features: vf.F("side", c.Kind, "addpath", c.Sess.AddPath > 0), Detail: "the replacement never returned; blocked in:\n" + stk, Case: c})
@@ -272,6 +277,20 @@ func runCase(c c12case) (o outcome) {
 			if !seen[v.Signature()] {
 				seen[v.Signature()] = true
 				o.viol = append(o.viol, v)
+			}
+		}
+	}
+	// what the Loc-RIB passed on: a downstream session must have converged as well
+	if ad != nil && len(o.viol) == 0 {
+		for _, d := range ad.SetDiff(bd) {
+			for _, how := range classify(ad.Attrs[d.Key], bd.Attrs[d.Key]) {
+				v := vf.Violation{Clause: "diverged-downstream:" + how, Features: feat(c), Case: c,
+					Detail: fmt.Sprintf("import side, session %s, chains %s: the Loc-RIBs agree, but for prefix %s the Adj-RIB-Out of a route-reflector client holds %v after the replacement and %v when everything is set up with the final chain",
+						c.Sess, chainsStr(c), d.Pfx, d.Before, d.After)}
+				if !seen[v.Signature()] {
+					seen[v.Signature()] = true
+					o.viol = append(o.viol, v)
+				}
 			}
 		}
 	}
